@@ -35,6 +35,25 @@ def showHeader (fmt : Format) : Option Header → String
     | .cnf => s!"H:{h.varCount}:{h.clauseCount}"
     | _ => s!"H:{h.varCount}:{h.clauseCount}:{h.extra}"
 
+/-- FNV-1a 64 of a text (same formula as `eng_cnf.rs::fnv_hex`). -/
+def cnfFnv (s : String) : UInt64 :=
+  s.toUTF8.foldl (fun h b => (h ^^^ b.toUInt64) * 0x100000001b3) 0xcbf29ce484222325
+
+def cnfFnvHex (s : String) : String :=
+  let n := (cnfFnv s).toNat
+  String.ofList ((List.range 16).reverse.map fun i => hexDigit ((n / 16 ^ i) % 16))
+
+/-- An item of more than 512 bytes: first 16 bytes, `~<len>:<fnv>` (as `eng_cnf.rs::short_item`). -/
+def shortItem (s : String) : String :=
+  if s.utf8ByteSize ≤ 512 then s
+  else String.ofList (s.toList.take 16) ++ s!"~{s.utf8ByteSize}:{cnfFnvHex s}"
+
+/-- `eng_cnf.rs::join_obs`: a text of more than 32768 bytes is replaced by a digest. -/
+def joinObs (items : List String) (fin : String) : String :=
+  let t := "|".intercalate (items ++ [fin])
+  if t.utf8ByteSize ≤ 32768 then t
+  else s!"D{items.length}:{t.utf8ByteSize}:{cnfFnvHex t}|{fin}"
+
 def runCnfCase (line : String) : String × String :=
   let fs := fields line
   let fmtS := field fs "fmt"
@@ -51,7 +70,7 @@ def runCnfCase (line : String) : String × String :=
     match (parseLog l cfg).run lr0 with
     | (.ok log, lr) =>
       let s := match log.satisfiable with | some true => "sat" | some false => "unsat" | none => "none"
-      (s!"S:{s}{at_ lr}|A:{showLits log.assignment}{at_ lr}|END", s!"fmt=log ok=1 lits={log.assignment.length}")
+      (joinObs [s!"S:{s}{at_ lr}", shortItem s!"A:{showLits log.assignment}" ++ at_ lr] "END", s!"fmt=log ok=1 lits={log.assignment.length}")
     | (.error e, _) => (showPErr e, s!"fmt=log err={showPErr e}")
   else
     let fmt := if fmtS == "wcnf" then Format.wcnf else if fmtS == "gcnf" then Format.gcnf else Format.cnf
@@ -65,12 +84,12 @@ def runCnfCase (line : String) : String × String :=
         | f + 1 =>
           match (p.nextClause).run lr with
           | (.ok (some c, p'), lr') =>
-            drive f p' lr' (s!"C:{c.tag}:{showLits c.lits}{at_ lr'}" :: acc)
+            drive f p' lr' ((shortItem s!"C:{c.tag}:{showLits c.lits}" ++ at_ lr') :: acc)
           | (.ok (none, _), _) => (acc.reverse, "END", 0)
           | (.error e, _) => (acc.reverse, showPErr e, 1)
       let (items, fin, _) := drive (data.length + 2) p lr1 []
       let hdr := showHeader fmt p.header ++ at_ lr1
-      ("|".intercalate (hdr :: items ++ [fin]),
+      (joinObs (hdr :: items) fin,
        s!"fmt={fmtS} hdr={b2s p.header.isSome} clauses={items.length} fin={fin.take 5} fault={b2s fault} multiline={b2s (decide (items.length + 2 < (data.filter (· == 10)).length))}")
 
 end Driver
